@@ -123,6 +123,8 @@ def pair_cases(tier, seed, work, stats, fams):
 def generate(tier, seed, work, stats):
     cases = pair_cases(tier, seed, work, stats, families(tier))
     cases += random_pairs(1500 if tier == "quick" else 30000, seed)
+    # P3: the calls the repository's own tests make, re-judged by the trace specification
+    cases += [c for c in core.record_tests(["/repo/pyformlang"], work, {"is_equivalent_to", "minimize"}, stats) if "A" in c["recorded"][0]]
     cases += random_dfas(1500 if tier == "quick" else 30000, seed + 5)
     return cases
 
@@ -170,8 +172,9 @@ def owner(ev, clause):
 
 def features(ev, clause):
     from harness import fa
-    f = {"subset_name_collision": fa.subset_name_collision(ev["meta"]["strsA"]) or
-         fa.subset_name_collision(ev["meta"]["strsB"])}
+    meta = ev.get("meta", {})
+    f = {"subset_name_collision": fa.subset_name_collision(meta.get("strsA", {})) or
+         fa.subset_name_collision(meta.get("strsB", {}))}
     fa_ = fa.fa_features(ev["A"])
     f["A.deterministic"] = fa_["deterministic"]
     return f
